@@ -91,3 +91,34 @@ def set_state(it, obj, name, value):
         it.set_attr(obj, name, value, None)
         return True
     return False
+
+
+def state_obs(res, oid, where, runs_named, what):
+    """No state outlives a call: on no abstract path of the analysed functions is an object written that is shared between
+    calls (module level, class level, a mutable default argument, a memoised result, a module-level iterator), and no such
+    object is handed to the caller as the result.  A necessary condition of every "for all inputs the result is ..."
+    clause: with such a write the result depends on the history of calls.  -> [Ob]"""
+    from ..decide import definite
+    out = []
+    for name, runs in runs_named:
+        def chk(p, mode):
+            fails = []
+            for e in p.events:
+                if e.kind in ('mutate-shared', 'global-write', 'class-attr-write'):
+                    tgt = e.data.get('target', e.data.get('name', e.data.get('attr')))
+                    desc = getattr(tgt, 'desc', None) or repr(tgt)
+                    fails.append(definite(f'{what}: {desc} is shared by all calls and is written here ({e.kind}, '
+                                          f'{e.data.get("how", "")}): the next call sees what this one left behind', e.node, firm=True))
+                    break
+            v = p.interp.resolve(p.value) if p.outcome == 'return' and isinstance(p.value, AVal) else None
+            if v is not None and 'global' in getattr(v, 'tags', ()) and not isinstance(v, PyLit) and \
+                    ('default-arg' in v.tags or 'cached' in v.tags):
+                fails.append(definite(f'{what}: the result handed to the caller is {getattr(v, "desc", None) or v!r}, one object shared '
+                                      f'by all calls: a later call changes what an earlier caller holds', firm=True))
+            return fails
+        chk.no_return_ok = True
+        ob = runs.judge(oid, f'{name}: no state is kept between calls (no write to module-level, class-level, default-argument or '
+                             f'memoised objects; the result is not such an object)', where, 'state shared between calls', chk,
+                        rule=f'{oid}.state.{name}')
+        out.append(ob)
+    return out
